@@ -486,3 +486,25 @@ def store_selection_size(T, m, max_per_template):
                 any(a <= int(T.samples[i]) < b for a, b in iv)]
         total += min(len(elig), max_per_template)
     return total
+
+
+def large_spec(ns, seed=1, nt=5, nc=8, nsw=4):
+    """A hand-made (not generated) big dataset spec, for batching boundaries (get_depths works in
+    batches of 50 000 spikes)."""
+    rs = np.random.RandomState(seed)
+    samples = np.sort(rs.randint(0, 10 * ns, size=ns)).tolist()
+    return {
+        'ns': ns, 'nt': nt, 'nc': nc, 'nsw': nsw, 'n_raw': 10 * ns, 'rate': 30000.0,
+        'naming': 'ks', 'col2d': False, 'time_dtype': 'uint64', 'tmpl_dtype': 'uint32',
+        'clu_dtype': 'int32', 'seed': seed, 'samples': samples,
+        'spike_templates': rs.randint(0, nt - 1, size=ns).tolist(),     # highest id unused
+        'curation': None, 'clusters_file': True, 'amplitudes': True, 'alf_samples_file': False,
+        'ncd': nc, 'chmap': list(range(nc)), 'chmap_dtype': 'int32',
+        'pos': [[10.0 * (i % 2), 20.0 * (i // 2)] for i in range(nc)], 'shanks': None,
+        'probes_file': False,
+        'templates': {'dense': True, 'dtype': 'float32', 'int': False, 'nan_template': False},
+        'wm': True, 'wmi_file': False, 'sim': True,
+        'pcf': {'nloc': 3, 'rows': None, 'ind': [rs.permutation(nc)[:3].tolist() for _ in range(nt)],
+                'ind_dtype': 'uint32', 'dtype': 'float32', 'zero_positive': True,
+                'rows_dtype': 'int64'},
+        'tf': None, 'attrs': [], 'nan': False, 'raw': None}
